@@ -299,6 +299,15 @@ func (s *symState) addr(v ssa.Value, f int) (symCV, string, bool) {
 	if al, ok := c.v.(*ssa.Alloc); ok && c.p == "" {
 		return symCV{v: al, f: c.f}, path, true
 	}
+	// an address computed in another frame (handed to an inlined helper or bound into a closure): keep decomposing
+	if c.p == "" && (c.v != v || c.f != f) {
+		switch c.v.(type) {
+		case *ssa.FieldAddr, *ssa.IndexAddr:
+			if base, p2, ok := s.addr(c.v, c.f); ok {
+				return base, p2 + path, true
+			}
+		}
+	}
 	// a pointer value (parameter, loaded pointer, call result): name the memory by the pointer itself
 	return c, path, true
 }
@@ -871,6 +880,11 @@ func (r *symRun) instrs(fr *symFrame, b *ssa.BasicBlock, from int, st *symState,
 				st.escape(a, fr.id)
 			}
 			st.invalidate()
+		case *ssa.Lookup:
+			st.clear(y, fr.id)
+			delete(st.val, symVKey{y, fr.id})
+			delete(st.tup, symVKey{y, fr.id})
+			st.lookupTable(y, fr.id)
 		case *ssa.Call:
 			r.call(fr, b, i, y, st, k)
 			return
@@ -923,6 +937,196 @@ func (r *symRun) instrs(fr *symFrame, b *ssa.BasicBlock, from int, st *symState,
 	// block without terminator (should not happen)
 }
 
+// ---------------------------------------------------------------------------------------------
+// constant dispatch tables: a package-level map that is built once by the package initialiser from constant keys
+// and never written again. A lookup with a key that is known on the path then has a known outcome, so a
+// `switch typ { case K: ... }` rewritten as `table[typ]` keeps its per-key meaning.
+
+const symInitFrame = -1 // frame id of values computed by the package initialiser
+
+type symTable struct {
+	entries map[string]ssa.Value // constant key (exact string) -> value stored by the initialiser
+}
+
+var (
+	symTableMu   sync.Mutex
+	symTableMemo = map[*ssa.Global]*symTable{}
+)
+
+func symTableOf(g *ssa.Global) *symTable {
+	symTableMu.Lock()
+	defer symTableMu.Unlock()
+	if t, ok := symTableMemo[g]; ok {
+		return t
+	}
+	t := symBuildTable(g)
+	symTableMemo[g] = t
+	return t
+}
+
+func symBuildTable(g *ssa.Global) *symTable {
+	if g.Pkg == nil || g.Object() == nil || g.Object().Exported() {
+		return nil
+	}
+	pt, ok := g.Type().Underlying().(*types.Pointer)
+	if !ok {
+		return nil
+	}
+	if _, isMap := pt.Elem().Underlying().(*types.Map); !isMap {
+		return nil
+	}
+	initFn := g.Pkg.Func("init")
+	if initFn == nil {
+		return nil
+	}
+	var fns []*ssa.Function
+	var add func(f *ssa.Function)
+	add = func(f *ssa.Function) {
+		if f == nil || f.Blocks == nil {
+			return
+		}
+		fns = append(fns, f)
+		for _, a := range f.AnonFuncs {
+			add(a)
+		}
+	}
+	for _, f := range an.PkgFuncs(g.Pkg) {
+		if f.Parent() == nil {
+			add(f)
+		}
+	}
+	add(initFn)
+	var made *ssa.MakeMap
+	for _, f := range fns {
+		for _, b := range f.Blocks {
+			for _, in := range b.Instrs {
+				if _, isDbg := in.(*ssa.DebugRef); isDbg {
+					continue
+				}
+				for _, op := range in.Operands(nil) {
+					if op == nil || *op != ssa.Value(g) {
+						continue
+					}
+					switch y := in.(type) {
+					case *ssa.Store:
+						mm, isMM := y.Val.(*ssa.MakeMap)
+						if y.Addr != ssa.Value(g) || f != initFn || made != nil || !isMM {
+							return nil // assigned elsewhere / more than once / not a literal
+						}
+						made = mm
+					case *ssa.UnOp:
+						// a read of the table: it may only be looked up, ranged over or measured
+						if y.Op != token.MUL || y.Referrers() == nil {
+							return nil
+						}
+						for _, ref := range *y.Referrers() {
+							switch r := ref.(type) {
+							case *ssa.Lookup:
+								if r.X != ssa.Value(y) {
+									return nil
+								}
+							case *ssa.Range, *ssa.DebugRef:
+							case *ssa.Call:
+								if b, isB := r.Call.Value.(*ssa.Builtin); !isB || b.Name() != "len" {
+									return nil
+								}
+							default:
+								return nil
+							}
+						}
+					default:
+						return nil // address taken
+					}
+				}
+			}
+		}
+	}
+	if made == nil || made.Referrers() == nil {
+		return nil
+	}
+	t := &symTable{entries: map[string]ssa.Value{}}
+	for _, ref := range *made.Referrers() {
+		switch r := ref.(type) {
+		case *ssa.MapUpdate:
+			k, isK := r.Key.(*ssa.Const)
+			if r.Map != ssa.Value(made) || !isK || k.Value == nil {
+				return nil
+			}
+			t.entries[k.Value.ExactString()] = r.Value
+		case *ssa.Store:
+			if r.Val != ssa.Value(made) {
+				return nil
+			}
+		case *ssa.DebugRef:
+		default:
+			return nil
+		}
+	}
+	return t
+}
+
+// lookupTable gives `table[key]` its value when the table is a constant dispatch table and the key is known.
+func (s *symState) lookupTable(lk *ssa.Lookup, f int) {
+	m := s.resolve(lk.X, f)
+	g, ok := m.v.(*ssa.Global)
+	if !ok || !strings.HasPrefix(m.p, "@") || strings.ContainsAny(m.p[1:], ".[#@") {
+		return
+	}
+	k, ok := s.constOf(s.resolve(lk.Index, f))
+	if !ok {
+		return
+	}
+	t := symTableOf(g)
+	if t == nil {
+		return
+	}
+	mt, _ := lk.X.Type().Underlying().(*types.Map)
+	if mt == nil {
+		return
+	}
+	var val symCV
+	v, found := t.entries[k.ExactString()]
+	if found {
+		val = s.resolve(v, symInitFrame)
+	} else {
+		switch mt.Elem().Underlying().(type) {
+		case *types.Pointer, *types.Interface, *types.Slice, *types.Map, *types.Chan, *types.Signature:
+			val = symCV{v: ssa.NewConst(nil, mt.Elem())}
+		default:
+			val = symCV{v: lk, f: f, p: "#0"}
+			if !lk.CommaOk {
+				val = symCV{v: lk, f: f}
+			}
+		}
+	}
+	if lk.CommaOk {
+		s.tup[symVKey{lk, f}] = []symCV{val, {v: ssa.NewConst(constant.MakeBool(found), types.Typ[types.Bool])}}
+		return
+	}
+	if val.v != ssa.Value(lk) {
+		s.val[symVKey{lk, f}] = val
+	}
+}
+
+// DynCallee returns the function a call through a function value resolves to on this path (nil: unknown).
+func (x *symX) DynCallee(call *ssa.Call) *ssa.Function {
+	if call.Call.IsInvoke() || call.Call.StaticCallee() != nil {
+		return nil
+	}
+	c := x.R(call.Call.Value)
+	if c.p != "" {
+		return nil
+	}
+	switch y := c.v.(type) {
+	case *ssa.MakeClosure:
+		f, _ := y.Fn.(*ssa.Function)
+		return f
+	case *ssa.Function:
+		return y
+	}
+	return nil
+}
+
 // symClosureWrites: the function literal stores through (or leaks) its free variable #idx.
 func symClosureWrites(lit *ssa.Function, idx int) bool {
 	if idx >= len(lit.FreeVars) {
@@ -958,6 +1162,11 @@ func symClosureWrites(lit *ssa.Function, idx int) bool {
 		}
 	}
 	return false
+}
+
+// symIsForwarder: a synthetic bound-method wrapper or method-expression thunk.
+func symIsForwarder(fn *ssa.Function) bool {
+	return fn != nil && (strings.HasPrefix(fn.Synthetic, "bound method wrapper") || strings.HasPrefix(fn.Synthetic, "thunk for") || strings.HasPrefix(fn.Synthetic, "wrapper for"))
 }
 
 func (x *symX) args(cc *ssa.CallCommon) []symCV {
@@ -1006,6 +1215,25 @@ func (r *symRun) call(fr *symFrame, b *ssa.BasicBlock, i int, call *ssa.Call, st
 	delete(st.val, symVKey{call, fr.id})
 	delete(st.tup, symVKey{call, fr.id})
 	callee := call.Call.StaticCallee()
+	// a call through a function value that resolves, on this path, to a known closure / function (a func-typed
+	// parameter of an inlined helper, a closure held in a local): the callee is known after all
+	var dynClosure *ssa.MakeClosure
+	dynFrame := 0
+	if callee == nil && !call.Call.IsInvoke() {
+		if _, isB := call.Call.Value.(*ssa.Builtin); !isB {
+			c := st.resolve(call.Call.Value, fr.id)
+			if c.p == "" {
+				switch y := c.v.(type) {
+				case *ssa.MakeClosure:
+					if f, ok := y.Fn.(*ssa.Function); ok {
+						callee, dynClosure, dynFrame = f, y, c.f
+					}
+				case *ssa.Function:
+					callee = y
+				}
+			}
+		}
+	}
 	inline := false
 	if callee != nil && len(callee.Blocks) > 0 && fr.depth < r.h.MaxDepth && r.h.Inline != nil {
 		rec := false
@@ -1015,7 +1243,9 @@ func (r *symRun) call(fr *symFrame, b *ssa.BasicBlock, i int, call *ssa.Call, st
 			}
 		}
 		if !rec {
-			inline = r.h.Inline(x, call, callee)
+			// bound-method wrappers and thunks only forward to the method: always stepped into (the method call
+			// inside is then subject to the rule's Inline decision like any other static call)
+			inline = symIsForwarder(callee) || r.h.Inline(x, call, callee)
 		}
 	}
 	if !inline {
@@ -1041,7 +1271,13 @@ func (r *symRun) call(fr *symFrame, b *ssa.BasicBlock, i int, call *ssa.Call, st
 			st.val[symVKey{p, nf.id}] = args[pi]
 		}
 	}
-	if mc, ok := call.Call.Value.(*ssa.MakeClosure); ok {
+	if dynClosure != nil {
+		for bi, bd := range dynClosure.Bindings {
+			if bi < len(callee.FreeVars) {
+				st.val[symVKey{callee.FreeVars[bi], nf.id}] = st.resolve(bd, dynFrame)
+			}
+		}
+	} else if mc, ok := call.Call.Value.(*ssa.MakeClosure); ok {
 		for bi, bd := range mc.Bindings {
 			if bi < len(callee.FreeVars) {
 				st.val[symVKey{callee.FreeVars[bi], nf.id}] = st.resolve(bd, fr.id)
@@ -1114,6 +1350,17 @@ func (s *symState) unboxCV(c symCV) symCV {
 		break
 	}
 	return c
+}
+
+// IsClosureArg: the argument is, on this path, a closure or bound method value (a helper that receives one is
+// likely to call it; rules step into such helpers so that the closure's body is seen where it runs).
+func (x *symX) IsClosureArg(v ssa.Value) bool {
+	if _, isSig := v.Type().Underlying().(*types.Signature); !isSig {
+		return false
+	}
+	c := x.R(v)
+	_, ok := c.v.(*ssa.MakeClosure)
+	return ok && c.p == ""
 }
 
 // UnboxCV peels interface boxing from a resolved value.
